@@ -28,7 +28,7 @@ def run(c):
         trace = c.replay
     else:
         trace = c.scratch + "/codec.ndjson"
-        c.run_driver(drv, ["-mode", "codec", "-out", trace, "-n", 400 if c.thorough else 45])
+        c.run_driver(drv, ["-mode", "codec", "-out", trace, "-n", 400 if c.thorough else 32])
     r = _wire.validate_table(c, "WireCodecTrace", "WireCodecTrace.cfg", trace, chunks=6 if c.thorough else 4, min_chunk=100)
     _wire.judge_table(c, r, trace, maxlen=200)
     n = 0
